@@ -220,6 +220,20 @@ pub fn generate_c05(tier: &str, rng: &mut Prng) -> Vec<Case> {
             // the public key through the format model as well (decode + re-encode)
             ops.push(Case::new(format!("pk_from_bytes {n} {}", hex(&k.pk_bytes))));
         }
+        // public keys with coefficients at the ends of the canonical range (0, 1, q-2, q-1) in every position class: what
+        // to_bytes writes for such a key must decode back to it
+        for t in 0..(if tier == "thorough" { 12 } else { 3 }) {
+            let h: Vec<u32> = (0..n)
+                .map(|i| match (i + t) % 7 {
+                    0 => 12288,
+                    1 => 0,
+                    2 => 12287,
+                    3 => 1,
+                    _ => rng.below(12289) as u32,
+                })
+                .collect();
+            ops.push(Case::new(format!("pk_from_bytes {n} {}", hex(&crate::c06::enc_pk(n, &h)))));
+        }
         // boundary field values through the real encoder/decoder (objects built with from_b0)
         for t in 0..(if tier == "thorough" { 40 } else { 6 }) {
             let lim: i64 = if n == 512 { 31 } else { 15 };
